@@ -126,9 +126,10 @@ func precheckInsertStmt(p *InsertPlan) error {
 		return errors.ErrIRNoColumns
 	}
 
-	values := stmt.Lists[0]
-	if len(stmt.Columns) != len(values) {
-		return fmt.Errorf("column count doesn't match value count")
+	for i, values := range stmt.Lists {
+		if len(stmt.Columns) != len(values) {
+			return fmt.Errorf("column count doesn't match value count at row %d", i+1)
+		}
 	}
 
 	return nil
@@ -248,6 +249,8 @@ func handleInsertValues(p *InsertPlan) error {
 				return fmt.Errorf("find table index error: %v", err)
 			}
 			p.result.Inter([]int{routeIdx})
+		default:
+			return fmt.Errorf("sharding value must be a literal, got %T", valueItem)
 		}
 		p.rewriteStmts = append(p.rewriteStmts, p.stmt)
 		return nil
@@ -268,6 +271,12 @@ func handleInsertValues(p *InsertPlan) error {
 				return fmt.Errorf("sharding value cannot be null")
 			}
 			routeIdx, err := p.tableRules[p.table].FindTableIndex(v)
+			if err != nil {
+				return fmt.Errorf("find table index error: %v", err)
+			}
+			if p.tableRules[p.table].GetSliceIndexFromTableIndex(routeIdx) < 0 {
+				return fmt.Errorf("find table index error: sharding value %v is outside the configured tables", v)
+			}
 			if newStmt, ok := newStmtMap[routeIdx]; ok {
 				newStmt.Lists = append(newStmt.Lists, valueList)
 			} else {
@@ -277,9 +286,8 @@ func handleInsertValues(p *InsertPlan) error {
 				p.rewriteStmts = append(p.rewriteStmts, &newStmt)
 				newStmtMap[routeIdx] = &newStmt
 			}
-			if err != nil {
-				return fmt.Errorf("find table index error: %v", err)
-			}
+		default:
+			return fmt.Errorf("sharding value must be a literal, got %T", valueItem)
 		}
 	}
 
